@@ -1,4 +1,5 @@
 import Cinco.Proofs.Roundtrip
+import Cinco.Proofs.RoundtripLeaf
 import Cinco.Config.Doc
 /-
   C02 — saving and re-loading a configuration reproduces it exactly.
@@ -72,6 +73,77 @@ theorem reloaded_leaf {W : World} {d : Nat} {s : Schema} {c c' : Cfg} (h : SameV
        (v = .none ∧ v' = .dict [] ∧ ∃ kf vf, fs.kind = .dict kf vf) ∨
        (v = .str [] ∧ v' = .none ∧ ∃ m, fs.kind = .secure m)) :=
   sameValues_leaf h hk
+
+
+/-! ### the serialised tree -/
+
+/-- **The tree is plain data**: strings, numbers, booleans, null, lists and string-keyed maps only — for every configuration
+    whose leaf declarations are typed (no AnyField / untyped container / custom validator, dict keys required and string-like)
+    and whose leaves hold validation results, at every depth; dynamically added fields must hold plain data themselves. -/
+theorem tree_is_plain (W : World) (hE : ∀ m s r, W.fe.encryptS m s = some r → r.plain = true)
+    (fuel : Nat) (s : Schema) (c : Cfg) (t : List (Val × Val))
+    (hnd : s.keysNodup = true) (hsh : Shaped fuel s c) (hl : AllLeaves (PlainLeaf W.fe) fuel s c)
+    (hdyn : AllCfgs DynPlain fuel s c) (ht : toTree W fuel s c false none = some t) :
+    (Val.dict t).plain = true :=
+  toTree_plain W hE fuel s c t hnd hsh hl hdyn ht
+
+/-- **No virtual or instance-method field is written** unless virtual output is asked for (no premises at all) … -/
+theorem tree_has_no_computed_field (W : World) (fuel : Nat) (s : Schema) (c : Cfg) (mask : Option Str) (t : List (Val × Val))
+    (h : toTree W fuel s c false mask = some t) :
+    ∀ kv ∈ t, ∃ n : String, kv.1 = .str n.toList ∧
+      ((∃ f, (n, f) ∈ s.fields ∧ f.stores = true) ∨ (n ∈ c.dyn ∧ s.get n = none)) :=
+  toTree_keys W fuel s c mask t h
+
+/-- … and with virtual output every virtual field is written -/
+theorem tree_virtual_when_asked (W : World) (fuel : Nat) (s : Schema) (c : Cfg) (mask : Option Str) (t : List (Val × Val))
+    (h : toTree W fuel s c true mask = some t) (n : String) (cst : Val) (hs : Bool)
+    (hm : (n, SField.virtual cst hs) ∈ s.fields) : (Val.str n.toList, cst) ∈ t :=
+  toTree_virtual W fuel s c mask t h n cst hs hm
+
+/-! ### the per-leaf codec premise, discharged -/
+
+/-- **Round trip for the supported field kinds, with the codec premise proved**: every leaf declaration is `Supported`
+    (all built-in kinds; typed lists and dicts of them, nested; custom validators anywhere except on a typed container
+    itself), every held leaf is a fixed point of its field's validation and `TopCanon` (a digest carries the field's own
+    algorithm — else finding F23; no `None` / empty secret nested inside a typed container; no tuple under an untyped list), and
+    the encryption environment decrypts what it encrypted (`hS`, proved for the cipher models in C08) and reads null as unset
+    (`hN`). -/
+theorem tree_roundtrip_supported (W : World)
+    (hS : ∀ m s r, s ≠ [] → W.fe.encryptS m s = some r → W.fe.decryptS r = some (some s))
+    (hN : W.fe.decryptS .none = some none)
+    (fuel : Nat) (s : Schema) (c : Cfg) (t : List (Val × Val)) (c0 : Cfg) (n0 n1 : Nat)
+    (hnd : s.keysNodup = true) (hsr : SchemaLoadable W fuel s) (hsh : Shaped fuel s c)
+    (hsup : SchemaLeaves (fun fs => Supported fs = true) fuel s) (hheld : AllLeaves (HeldOk W) fuel s c)
+    (hst : StableAll W fuel s c) (hvd : ValidDeep W fuel s c) (hv : ∃ p, validateCfg W (fuel + 1) s p c = none)
+    (ht : toTree W fuel s c false none = some t) (hb : build W "" false none s n0 = .ok (c0, n1)) :
+    (loadTree W fuel s "" c0 t true n1).err = none ∧
+    SameValues W fuel s c (loadTree W fuel s "" c0 t true n1).cfg :=
+  tree_roundtrip W fuel s c t c0 n0 n1 hnd hsr hsh (codecOkAll_of_supported W hS hN fuel s c hsup hheld) hst hvd hv ht hb
+
+/-- the conditions on held values are needed — each of these is accepted by its field and does not come back: a digest of a
+    foreign algorithm (finding F23), and a tuple under an untyped list field (a tuple is not representable) -/
+theorem held_conditions_needed :
+    (validate lfWorld.fe.toEnv (.mk (.challenge "md5") false none) (.digest [] [] "sha1") = .ok (.digest [] [] "sha1") ∧
+      ¬ CodecOk lfWorld (.mk (.challenge "md5") false none) (.digest [] [] "sha1")) ∧
+    (validate lfWorld.fe.toEnv (.mk (.list none) false none) (.tuple [.int 1]) = .ok (.tuple [.int 1]) ∧
+      ¬ CodecOk lfWorld (.mk (.list none) false none) (.tuple [.int 1])) :=
+  ⟨codecOk_false_foreign_digest, codecOk_false_tuple⟩
+
+/-- a dict key field that is not required accepts the key `None` and writes it as it is: a map that is not string-keyed
+    (finding F34, with the non-string key kinds) -/
+theorem plain_needs_string_keys :
+    let fs : FieldSpec := .mk (.dict (some (.mk (.string {}) false none)) (some (.mk (.int none none) false none))) false none
+    validate lfWorld.fe.toEnv fs (.dict [(.none, .int 1)]) = .ok (.dict [(.none, .int 1)]) ∧
+    toBasic lfWorld.fe fs (.dict [(.none, .int 1)]) = .ok (.dict [(.none, .int 1)]) ∧
+    (Val.dict [(.none, .int 1)]).plain = false :=
+  toBasic_not_plain_none_key
+
+/-- non-vacuity of the discharged premises: a stripped required string, base64 bytes, a list of ints, a sub-configuration
+    with a flag and a secret, a virtual field -/
+theorem example_leaves :
+    toTree lfWorld 2 lfSchema lfCfg false none = some lfTree ∧ (Val.dict lfTree).plain = true ∧
+    CodecOkAll lfWorld 2 lfSchema lfCfg :=
+  leaf_example
 
 /-- custom validators aside, the `StableAll` premise is automatic -/
 theorem stable_automatic (W : World) (d : Nat) (s : Schema) (c : Cfg)
